@@ -43,6 +43,22 @@ claimed = {
         "demand (R4.3). Float value identity is not decided."),
   note=ENGINE_NOTE + " Registers values are assumed to come from NewRegisters (fields unexported; checked that no other function writes them).",
   ref="DESIGN.md §3 C04"),
+ "C05": dict(
+  technique="per-type symbolic evaluation of registerSize vs the accessor ExtractFrom selects; SSA access-path identity for argument roles; loop coverage",
+  text=("Decides structural necessary conditions only (R5.1-R5.5): size table = accessor table for the 13 register field types, "
+        "argument roles at every hand-over between builder, response and Registers, descriptor = constructor arguments in split, "
+        "every field visited and reported exactly once in both extraction loops, widest size kept when fields share an address. "
+        "The end-to-end equality with device memory for all field multisets is NOT decided (needs execution)."),
+  note=ENGINE_NOTE,
+  ref="DESIGN.md §3 C05"),
+ "C06": dict(
+  technique="SSA/CFG rules on split/grouping/batching, truth-table enumeration of the kind filter through path facts, rule W on the span arithmetic",
+  text=("Decides structural necessary conditions only (R6.1-R6.3, R6.W): descriptors are built from validating constructors on "
+        "the batch's own values, the grouping key separates server/unit/kind injectively, the kind filter is exact, targets map to "
+        "the right constructors, limits equal the specification, and slot end/span arithmetic cannot wrap. Optimality/tightness of "
+        "the greedy batching for all field lists is NOT decided."),
+  note=ENGINE_NOTE,
+  ref="DESIGN.md §3 C06"),
  "C07": dict(
   technique="symbolic evaluation of ExpectedResponseLength against the specified reply length; abstract interpretation of the read loops",
   text=("Decides necessary conditions only: ExpectedResponseLength equals the specified reply length for all quantities (R7.1; "
@@ -80,6 +96,54 @@ claimed = {
         "a known finding (pinned by existing tests)."),
   note=ENGINE_NOTE,
   ref="DESIGN.md §3 C11"),
+ "C12": dict(
+  technique="type-resolved field-store enumeration; CRC equality dominance (abstract interpretation, CRC16 uninterpreted); value-origin classification",
+  text=("Decides that the RTU constructors leave CRC-guarded static functions in both response-function fields, that both "
+        "functions return reply content only under trailer == CRC16(body) on their own input, and that do()/Do can hand nothing "
+        "else carrying reply content to the caller (R12.1-R12.3), for every reply and every corruption. User-supplied functions "
+        "are outside the property."),
+  note=ENGINE_NOTE,
+  ref="DESIGN.md §3 C12"),
+ "C13": dict(
+  technique="interprocedural derived-pointer (taint) analysis over SSA with a read-only allow-list; hidden-state store rule",
+  text=("Decides write-effect freedom of every function reachable from the accessors/extraction roots: no store, copy or append "
+        "through payload-derived memory, no escape to non-allow-listed code (R13.1), no store to globals or through pointer "
+        "parameters/receivers (R13.2). Hence repeatability and order independence for all call sequences."),
+  note=ENGINE_NOTE + " Aliasing is tracked by derived-pointer propagation only (no pointer analysis is available at x/tools v0.29.0).",
+  ref="DESIGN.md §3 C13"),
+ "C14": dict(
+  technique="must-hold lock-set dataflow on the client's RWMutex with requires-lock summaries; freshness-based field partition",
+  text=("Decides for every schedule, by the semantics of sync.RWMutex: guarded fields are only accessed under the lock, writes and "
+        "all transport operations under the exclusive lock, Do holds the exclusive lock from entry to its single deferred unlock "
+        "with the whole exchange inside, Close tests the transport under the lock (R14.1-R14.4). Fairness and the transport's own "
+        "thread safety are not decided."),
+  note=ENGINE_NOTE,
+  ref="DESIGN.md §3 C14"),
+ "C15": dict(
+  technique="abstract interpretation of the assembler with a ghost model of bytes.Buffer (unread length/content); CFG rules on the loops",
+  text=("Decides structural necessary conditions (R15.1-R15.4): frames are consumed and answered only when completely buffered, "
+        "a complete request is never withheld, every answering path removes exactly the answered bytes (or closes), buffered "
+        "requests are all handled in order within one read, the connection loop hands over exactly what was read and writes the "
+        "reply before the next read. Exactly-once/in-order over all segmentations as a whole is NOT decided."),
+  note=ENGINE_NOTE + " bytes.Buffer contract is modelled, not analysed.",
+  ref="DESIGN.md §3 C15"),
+ "C16": dict(
+  technique="abstract interpretation of dispatcher and assembler under the assembler's established facts; layout extraction of the exception encoder",
+  text=("Decides: assembler type assertions cannot fail (R16.1), every feasible rejection of a classifier-accepted complete frame "
+        "is an exception addressed with the frame's transaction id/unit/function and code 3 and no panic is possible (R16.2), the "
+        "exception ADU layout (R16.3), origin and addressing of every reply the assembler emits (R16.4), recover-protected "
+        "goroutines (R16.5), complete-frame consumption (R16.0). Handler-built responses are outside."),
+  note=ENGINE_NOTE,
+  ref="DESIGN.md §3 C16"),
+ "C17": dict(
+  technique="abstract interpretation with nil-ness path facts and ghost store facts for optional callbacks; lock-set analysis; CFG pairing/post-dominance rules",
+  text=("Decides structural clauses (R17.1-R17.6): no call through a nil callback for any combination of set/unset callbacks, "
+        "shared server state only under the mutex, untrack and close-callback guard exactly once on every path of the cleanup, "
+        "rejected connections closed, context cancellation closes the listener, shutdown flag ordering, in-flight flag cleared "
+        "only after the reply write. Exact accounting under all interleavings, the full in-flight guarantee of Shutdown and "
+        "bounded time are NOT decided (schedule exploration)."),
+  note=ENGINE_NOTE,
+  ref="DESIGN.md §3 C17"),
  "C18": dict(
   technique="constant-table comparison, abstract interpretation of the classifier on the encoders' symbolic buffers for every prefix length",
   text=("Decides table agreement (R18.1), expected length = 6 + length field (R18.2), too-short exactly below 8 bytes and "
